@@ -4,7 +4,7 @@ from evalutil import *
 
 ID = "C09"
 LEVEL = "proof"
-MODULES = ["H3Proofs.Props.C09"]
+MODULES = ["H3Proofs.Props.C09", "H3Proofs.Props.C09Hex"]
 THEOREMS = "auto"
 ASSUMPTIONS = ["hand-written model of cellToLocalIjk / localIjkToCell / gridDistance with the regenerated pentagon "
                "rotation tables, tied to the code by exact correspondence"]
